@@ -65,6 +65,11 @@ Record call := mkCall { cflag : bool; creqs : list req }.
 
 Definition name_batchable (q : req) : bool := mem_bytes (rname q) batchable_cmds.
 
+(* a request that can ever be a member of a batch: a batchable name, and not a multi-key DEL
+   (kvbatchOperator.IsBatchable refuses "del" with more than one key before anything else) *)
+Definition multi_del (q : req) : bool := bytes_eqb (rname q) del_name && (2 <? rnargs q).
+Definition batch_cand (q : req) : bool := name_batchable q && negb (multi_del q).
+
 Section Batching.
   Variables (store W R : Type).
   Variable apply_w : store -> W -> store.
@@ -82,7 +87,7 @@ Section Batching.
   Definition init_op : opstate := mkOp false [] [] [].
 
   Definition is_batchable (st : opstate) (q : req) : bool :=
-    if bytes_eqb (rname q) del_name && (2 <? rnargs q) then false
+    if multi_del q then false
     else name_batchable q
          && (N.of_nat (length (pend st)) <? max_db_batch_cmd_num)
          && negb (mem_bytes (rpk q) (dup st)).
